@@ -1,5 +1,5 @@
 (* the proof cone of C15 *)
-From TT Require Export Base.HeapTypes Model.Heap Model.HeapTriggers Spec.ModelWF
+From TT Require Export Base.HeapTypes Model.Heap Model.HeapRep Spec.ModelWF
   Proofs.C15.HeapLemmas Proofs.C15.Values Proofs.C15.Links Proofs.C15.Tree Proofs.C15.Frames Proofs.C15.LinkOps
-  Proofs.C15.Content Proofs.C15.LinkCalls Proofs.C15.Dfs Proofs.C15.AttrCalls Proofs.C15.SetDoc Proofs.C15.SetDocTree Proofs.C15.Step
-  Proofs.C15.Atomic Proofs.C15.WfSound Proofs.C15.Corollaries.
+  Proofs.C15.Content Proofs.C15.Users Proofs.C15.LinkCalls Proofs.C15.Dfs Proofs.C15.AttrCalls Proofs.C15.SetDoc Proofs.C15.Step
+  Proofs.C15.Atomic Proofs.C15.PushAtomic Proofs.C15.DocCopy Proofs.C15.Fuel Proofs.C15.WfSound Proofs.C15.WfComplete Proofs.C15.Corollaries.
